@@ -14,8 +14,12 @@ sys.path.insert(0, os.path.join(VERIF, 'selftest'))
 NEEDS = json.load(open(os.path.join(VERIF, 'seeded', 'needs.json')))
 
 
+OWN_ONLY = '--recheck-own' in sys.argv
+
+
 def recheck(d):
-    """apply the stored patch to a scratch copy of /repo's tracked sources and run every check"""
+    """apply the stored patch to a scratch copy of /repo's tracked sources and run every check (with --recheck-own: only the
+    check of the property the change was aimed at; the other entries keep what the last full run found)"""
     from run_mutants import copy_repo
     tmp = tempfile.mkdtemp(prefix='theo-seed-')
     try:
@@ -28,8 +32,11 @@ def recheck(d):
         env['VERIF_REPO'] = tmp
         env['VERIF_EVIDENCE_DIR'] = os.path.join(tmp, '_evidence')
         caught, broken = {}, {}
+        own = json.load(open(os.path.join(d, 'eval.json')))['property'][:3]
         for c in man['checks']:
             p2 = c['property_id']
+            if OWN_ONLY and p2 != own:
+                continue
             rr = subprocess.run([os.path.join(VERIF, 'check'), p2, '--tier', 'quick'], capture_output=True, text=True, env=env)
             if rr.returncode == 1:
                 caught[p2] = [l.strip()[:220] for l in rr.stdout.split('\n') if l.strip().startswith('report:')][:3]
@@ -48,7 +55,7 @@ def main():
     for a in sys.argv:
         if a.startswith('--only='):
             only = set(a[len('--only='):].split(','))
-    if '--recheck' in sys.argv or only:
+    if '--recheck' in sys.argv or OWN_ONLY or only:
         from concurrent.futures import ThreadPoolExecutor
         todo = [d for d in dirs if only is None or os.path.basename(d) in only]
         with ThreadPoolExecutor(8) as ex:
@@ -70,7 +77,13 @@ def main():
         note = None
         if d in rechecked:
             c2, b2, note = rechecked[d]
-            if c2 is not None:
+            if c2 is not None and OWN_ONLY:
+                own_ = ev['property'][:3]
+                caught = {k: v for k, v in caught.items() if k != own_}
+                broken = {k: v for k, v in broken.items() if k != own_}
+                caught.update(c2)
+                broken.update(b2)
+            elif c2 is not None:
                 caught, broken = c2, b2
         meta = {'property': ev['property'], 'breaks': what, 'needs_to_manifest': needs,
                 'origin': 'independent sub-agent given only the property text and a scratch worktree (no access to /verif)',
